@@ -426,7 +426,7 @@ func PanicOnly(b *ssa.BasicBlock) bool {
 func Returns(fn *ssa.Function) []*ssa.Return {
 	var out []*ssa.Return
 	for _, b := range fn.Blocks {
-		if len(b.Instrs) == 0 {
+		if len(b.Instrs) == 0 || IsDead(b) {
 			continue
 		}
 		if r, ok := b.Instrs[len(b.Instrs)-1].(*ssa.Return); ok {
@@ -434,6 +434,26 @@ func Returns(fn *ssa.Function) []*ssa.Return {
 		}
 	}
 	return out
+}
+
+// DeadHook lets the rule layer declare further blocks infeasible (code under a debug flag nothing sets, the
+// error branch of a callee that cannot fail). IsDead is consulted by Returns and by the rules' call enumeration:
+// what cannot execute cannot break a property, and must not raise an alarm either.
+var DeadHook func(b *ssa.BasicBlock) bool
+
+var deadMemo = map[*ssa.BasicBlock]bool{}
+
+// ResetDeadMemo must be called when a new program is loaded.
+func ResetDeadMemo() { deadMemo = map[*ssa.BasicBlock]bool{} }
+
+func IsDead(b *ssa.BasicBlock) bool {
+	if v, ok := deadMemo[b]; ok {
+		return v
+	}
+	deadMemo[b] = false // re-entrancy guard
+	v := DeadByConst(b) || (DeadHook != nil && DeadHook(b))
+	deadMemo[b] = v
+	return v
 }
 
 // IsNilConst reports whether v is the nil constant.
